@@ -229,17 +229,18 @@ func (x *pl) doneBranch(cc *ast.CommClause) string {
 	if !ok || len(ret.Results) != 1 {
 		return x.fail(cc, "Done branch does not end in a return")
 	}
+	for _, st := range cc.Body[:len(cc.Body)-1] {
+		// err = ctx.Err() (possibly wrapped when it is not context.Canceled); logging
+		s := x.src(st)
+		if s != "err = ctx.Err()" && !strings.HasPrefix(s, "if err != nil && !errors.Is(err, context.Canceled) {") &&
+			!strings.HasPrefix(s, "p.Log.") && !strings.HasPrefix(s, "p.log.") {
+			return x.fail(st, "Done branch statement %s", s)
+		}
+	}
 	switch x.src(ret.Results[0]) {
 	case "nil":
 		return "RunRes.nil"
 	case "err", "ctx.Err()":
-		// err = ctx.Err() (possibly wrapped when it is not context.Canceled)
-		for _, st := range cc.Body[:len(cc.Body)-1] {
-			s := x.src(st)
-			if s != "err = ctx.Err()" && !strings.HasPrefix(s, "if err != nil && !errors.Is(err, context.Canceled) {") {
-				return x.fail(st, "Done branch statement %s", s)
-			}
-		}
 		return "RunRes.canceled"
 	}
 	return x.fail(ret, "Done branch returns %s", x.src(ret.Results[0]))
